@@ -733,7 +733,7 @@ func c16R5(c *Ctx, rule string) {
 	var starts []engine.Site
 	for _, fn := range c.P.AllFuncs() {
 		engine.EachInstr(fn, func(in ssa.Instruction) {
-			if g, ok := in.(*ssa.Go); ok && c.P.CalleeName(g.Common()) == "(*netPipeline).decodeResponses" {
+			if g, ok := in.(*ssa.Go); ok && c.P.GoTargetName(g) == "(*netPipeline).decodeResponses" {
 				starts = append(starts, engine.Site{Fn: fn, Instr: in})
 			}
 		})
